@@ -365,8 +365,8 @@ impl<'a, 'b> SchemerContext<'a, 'b> {
                             }
                             StringLitOrFormat::Tpl(items) => {
                                 //
-                                match items.0.first() {
-                                    Some(TplLitTypeItem::StringConst(c)) => acc.insert(maybe_not(
+                                match items.0.as_slice() {
+                                    [TplLitTypeItem::StringConst(c)] => acc.insert(maybe_not(
                                         Runtype::single_string_const(c),
                                         !allowed,
                                     )),
